@@ -46,6 +46,11 @@ const void* g_blocked_on[MAXT];
 std::atomic<const void*> g_cv_wait[MAXT];   // what a simulated thread waits on (null: not waiting)
 long g_cv_seq[MAXT]; int g_cv_timed[MAXT]; int g_cv_result[MAXT];
 int g_cv_spurious_left = 0; long g_cv_spurious = 0;
+// spin waits
+uint64_t g_entries_resume[MAXT + 1]; uint64_t g_entries_point[MAXT + 1]; uint64_t g_max_gap = 0; int g_max_gap_reason = -1, g_max_gap_prev = -1; unsigned g_max_gap_tag = 0;
+long g_spin_limit = 0; int g_spin_budget = 60; int g_spin_consec[MAXT]; long g_spin_yields = 0;
+std::atomic<int> g_livelock(0);
+int g_probe_left[MAXT]; int g_probe_n[MAXT]; void* g_probe_fn[MAXT][8];
 long g_cv_arrivals = 0, g_cv_waits = 0, g_cv_notifies = 0, g_cv_empty_notifies = 0, g_cv_timeouts = 0;
 int g_nthreads = 0;
 bool g_active = false;       // scheduler owns thread interleaving
@@ -66,7 +71,7 @@ bool g_have_replay = false;
 // event log
 struct Ev { int tid; int reason; unsigned tag; unsigned runnable; };
 std::vector<Ev> g_events;
-long g_reason_count[16];
+long g_reason_count[24];
 
 // pre-emption
 uint64_t g_entries[MAXT + 1];
@@ -96,6 +101,8 @@ inline void futex_wake(std::atomic<int>* a) {
 void park(int st, int reason, unsigned tag) {
   const int t = tl_tid;
   if (g_freerun.load(std::memory_order_acquire)) return;
+  { const uint64_t gap = g_entries[t] - g_entries_point[t]; if (gap > g_max_gap) { g_max_gap = gap; g_max_gap_reason = reason; g_max_gap_tag = tag; g_max_gap_prev = g_reason[t]; } }
+  if (reason != VS_R_SPIN) g_spin_consec[t] = 0;
   g_reason[t] = reason;
   g_tag[t] = tag;
   g_go[t].store(0, std::memory_order_relaxed);
@@ -103,6 +110,7 @@ void park(int st, int reason, unsigned tag) {
   g_sched_word.store(1, std::memory_order_release);
   futex_wake(&g_sched_word);
   while (g_go[t].load(std::memory_order_acquire) == 0) futex_wait(&g_go[t], 0);
+  g_entries_resume[t] = g_entries[t]; g_entries_point[t] = g_entries[t]; g_probe_left[t] = 0;
 }
 bool in_freerun() { return g_freerun.load(std::memory_order_acquire) != 0; }
 
@@ -240,6 +248,8 @@ void vs_sim_begin(uint64_t seed, int nthreads, int policy, int pct_depth,
   g_nlock_seen = 0; g_lock_blocks = 0; g_lock_ops = 0;
   g_cv_arrivals = g_cv_waits = g_cv_notifies = g_cv_empty_notifies = g_cv_timeouts = 0;
   g_cv_spurious_left = 0; g_cv_spurious = 0;
+  g_spin_yields = 0; g_max_gap = 0; g_livelock.store(0);
+  for (int t = 0; t < MAXT; ++t) { g_spin_consec[t] = 0; g_entries_resume[t] = 0; g_entries_point[t] = 0; g_probe_left[t] = 0; g_probe_n[t] = 0; }
   g_active = true;
 }
 
@@ -336,6 +346,7 @@ int vs_run(void) {
       rc = all_done ? 0 : 3;
       break;
     }
+    if (g_livelock.load()) { rc = 4; break; }   // a thread keeps spinning: every forced yield came back to the same loop
     // collect
     int runnable[MAXT], nr = 0, ndone = 0, nblocked = 0, nstalled = 0;
     for (;;) {
@@ -401,7 +412,7 @@ int vs_run(void) {
     for (int i = 0; i < nr; ++i) mask |= 1u << runnable[i];
     Ev e; e.tid = pick; e.reason = g_reason[pick]; e.tag = g_tag[pick]; e.runnable = mask;
     g_events.push_back(e);
-    if (e.reason >= 0 && e.reason < 16) ++g_reason_count[e.reason];
+    if (e.reason >= 0 && e.reason < 24) ++g_reason_count[e.reason];
     if (pick != g_last) ++g_switches;
     g_last = pick;
     ++g_step;
@@ -433,8 +444,8 @@ uint64_t vs_event_hash(void) {
 
 static const char* reason_name(int r) {
   static const char* n[] = {"start", "op", "guard-pre", "guard-won", "guard-prerel", "guard-postrel",
-                            "guard-blocked", "preempt", "stall", "exit", "neighbour", "guard-abort", "lock", "lock-blocked", "unlock", "condvar"};
-  return (r >= 0 && r < 16) ? n[r] : "?";
+                            "guard-blocked", "preempt", "stall", "exit", "neighbour", "guard-abort", "lock", "lock-blocked", "unlock", "condvar", "spin-yield"};
+  return (r >= 0 && r < 17) ? n[r] : "?";
 }
 
 void vs_dump_events(FILE* f) {
@@ -456,7 +467,7 @@ void vs_dump_schedule(FILE* f) {
 long vs_schedule_len(void) { return (long)g_events.size(); }
 int vs_schedule_at(long i) { return g_events[(size_t)i].tid; }
 
-long vs_fault_count(int reason) { return (reason >= 0 && reason < 16) ? g_reason_count[reason] : 0; }
+long vs_fault_count(int reason) { return (reason >= 0 && reason < 24) ? g_reason_count[reason] : 0; }
 long vs_preempts_fired(void) { return g_preempts_fired; }
 long vs_stalls_fired(void) { return g_stalls_fired; }
 long vs_guard_contentions(void) { return g_guard_contentions; }
@@ -481,7 +492,7 @@ void vs_dump_first_use(FILE* f) {
 // ===========================================================================
 // function-entry seam (-finstrument-functions in instrumented TUs)
 // ===========================================================================
-__attribute__((no_instrument_function)) void __cyg_profile_func_enter(void*, void*) {
+__attribute__((no_instrument_function)) void __cyg_profile_func_enter(void* fn, void*) {
   const int t = tl_tid;
   if (t < 0) {
     if (g_count_entries && g_calib_tid >= 0) ++g_entries[g_calib_tid];
@@ -489,6 +500,30 @@ __attribute__((no_instrument_function)) void __cyg_profile_func_enter(void*, voi
   }
   const uint64_t c = ++g_entries[t];
   if (!g_active) return;
+  // spin waits: after `limit` entries without a scheduling point the next 4096 entries are watched; a thread that
+  // cycles through at most 8 distinct functions is taken to be spinning and is parked (forced yield, stalled for two
+  // decisions); anything else is an ordinary long operation and is left alone.  All of it is counted in function
+  // entries, so it is a pure function of the schedule.
+  if (g_spin_limit > 0) {
+    if (g_probe_left[t] > 0) {
+      int& n = g_probe_n[t];
+      bool seen = false;
+      for (int i = 0; i < n && i < 8; ++i) if (g_probe_fn[t][i] == fn) { seen = true; break; }
+      if (!seen) { if (n < 8) g_probe_fn[t][n] = fn; if (n < 9) ++n; }
+      if (--g_probe_left[t] == 0) {
+        if (n <= 8 && !in_freerun()) {
+          ++g_spin_yields;
+          if (++g_spin_consec[t] > g_spin_budget) g_livelock.store(t + 1);
+          g_stall[t] = 2;   // somebody else runs first
+          park(S_PARKED, VS_R_SPIN, (unsigned)g_spin_consec[t]);
+          return;
+        }
+        g_entries_resume[t] = c; g_spin_consec[t] = 0;
+      }
+    } else if (c - g_entries_resume[t] > (uint64_t)g_spin_limit) {
+      g_probe_left[t] = 4096; g_probe_n[t] = 0;
+    }
+  }
   std::vector<uint64_t>& p = g_pre[t];
   size_t& i = g_pre_i[t];
   while (i < p.size() && p[i] < c) ++i;
@@ -655,6 +690,10 @@ int __real_pthread_cond_broadcast(pthread_cond_t*);
 void vs_cv_stats(long* w, long* n, long* e, long* to) { if (w) *w = g_cv_waits; if (n) *n = g_cv_notifies; if (e) *e = g_cv_empty_notifies; if (to) *to = g_cv_timeouts; }
 
 void vs_set_cv_spurious(int k) { g_cv_spurious_left = k; }
+void vs_set_spin(long limit, int budget) { g_spin_limit = limit; g_spin_budget = budget; }
+long vs_spin_yields(void) { return g_spin_yields; }
+unsigned long long vs_max_entry_gap(void) { return g_max_gap; }
+int vs_max_entry_gap_where(int* prev, unsigned* tag) { if (prev) *prev = g_max_gap_prev; if (tag) *tag = g_max_gap_tag; return g_max_gap_reason; }
 long vs_cv_spurious_fired(void) { return g_cv_spurious; }
 
 static int cv_wait_sim(const void* c, pthread_mutex_t* m, int timed) {
